@@ -71,14 +71,16 @@ func (c *vT) checkC05(q string) {
 	vAssert(vNativeTrue(bytes.Equal(b1, b2)), "C05.remarshal-same-bytes(native)")
 	vAssert(len(b1) == pbcmpl.Size(c.st.inner), "C05.size")
 	// determinism of construction: a second build from equal input, map iteration order free
-	vMapOrderNondet(true)
-	stB, err := NewSlimTrie(c.encoder(), c.keys, c.values(), vOptCase(c.optc))
-	vMapOrderNondet(false)
-	vAssert(err == nil, "build-ok")
-	if err == nil {
-		vAssert(vDeepEqual(c.st.inner, stB.inner), "C05.deterministic-message")
-		b3, _ := stB.Marshal()
-		vAssert(vNativeTrue(bytes.Equal(b1, b3)), "C05.deterministic-bytes(native)")
+	for rep := 0; rep < vNativeReps(16); rep++ {
+		vMapOrderNondet(true)
+		stB, err := NewSlimTrie(c.encoder(), c.keys, c.values(), vOptCase(c.optc))
+		vMapOrderNondet(false)
+		vAssert(err == nil, "build-ok")
+		if err == nil {
+			vAssert(vDeepEqual(c.st.inner, stB.inner), "C05.deterministic-message")
+			b3, _ := stB.Marshal()
+			vAssert(vNativeTrue(bytes.Equal(b1, b3)), "C05.deterministic-bytes(native)")
+		}
 	}
 }
 
